@@ -335,7 +335,7 @@ func universeOrder() *Universe {
 			V("b", npol("ns1", "tier1", nil, "all()", "Ingress")),
 			V("c", npol("ns1", "ghost", fp(1), "all()", "ingress", "egress")),
 		}},
-		Key{ID: "p4", Kind: "policy", Key: npKey("ns0", "ccc"), Variants: []Variant{
+		Key{ID: "p4", Kind: "policy", Key: npKey("ns0", "bbb"), Variants: []Variant{
 			V("a", npol("ns0", "default", nil, "all()", "egress")),
 			V("b", npol("ns0", "tier1", fp(10), "role == 'web' || role == 'host'", "ingress", "egress")),
 			Bad("bad", &model.Policy{Namespace: "ns0", Tier: "default", Selector: "all()", Types: []string{"egress"}, OutboundRules: []model.Rule{badAllowRule()}}),
@@ -424,9 +424,11 @@ func universeRoutes() *Universe {
 			V("ipipcs", pool("10.0.0.0/16", encap.CrossSubnet, encap.Never, false)),
 			V("none", pool("10.0.0.0/16", encap.Never, encap.Never, true)),
 		}},
-		Key{ID: "pool2", Kind: "pool", Key: poolKey("10.0.1.0/24"), Variants: []Variant{
-			V("vxlancs", pool("10.0.1.0/24", encap.Never, encap.CrossSubnet, true)),
-			V("none", pool("10.0.1.0/24", encap.Never, encap.Never, false)),
+		// pools never overlap (the datastore rejects overlapping pools)
+		Key{ID: "pool2", Kind: "pool", Key: poolKey("10.1.0.0/24"), Variants: []Variant{
+			V("vxlancs", pool("10.1.0.0/24", encap.Never, encap.CrossSubnet, true)),
+			V("none", pool("10.1.0.0/24", encap.Never, encap.Never, false)),
+			V("ipip", pool("10.1.0.0/24", encap.Always, encap.Never, false)),
 		}},
 		Key{ID: "blkL", Kind: "block", Key: blockKey("10.0.0.0/29"), Variants: []Variant{
 			V("a", block("10.0.0.0/29", localHost, nil)),
@@ -438,9 +440,10 @@ func universeRoutes() *Universe {
 			V("b", block("10.0.1.0/29", remote1, map[int]string{1: remote1, 2: remote2, 3: localHost})),
 			V("c", block("10.0.1.0/29", remote2, map[int]string{2: remote1})),
 		}},
-		Key{ID: "blkR2", Kind: "block", Key: blockKey("10.0.2.0/29"), Variants: []Variant{
-			V("a", block("10.0.2.0/29", remote2, nil)),
-			V("b", block("10.0.2.0/29", "", map[int]string{4: remote1})),
+		Key{ID: "blkR2", Kind: "block", Key: blockKey("10.1.0.0/29"), Variants: []Variant{
+			V("a", block("10.1.0.0/29", remote2, nil)),
+			V("b", block("10.1.0.0/29", "", map[int]string{4: remote1})),
+			V("c", block("10.1.0.0/29", remote1, map[int]string{4: remote2, 5: localHost})),
 		}},
 		Key{ID: "nodeL", Kind: "node", Key: model.ResourceKey{Kind: internalapi.KindNode, Name: localHost}, Variants: []Variant{
 			V("a", node(localHost, "192.168.0.1/24", "10.0.0.0")),
@@ -453,11 +456,11 @@ func universeRoutes() *Universe {
 			V("c", node(remote1, "172.16.0.2/24", "")),
 		}},
 		Key{ID: "nodeR2", Kind: "node", Key: model.ResourceKey{Kind: internalapi.KindNode, Name: remote2}, Variants: []Variant{
-			V("a", node(remote2, "192.168.0.3/24", "10.0.2.0")),
-			V("b", node(remote2, "172.16.0.3/24", "10.0.2.0")),
+			V("a", node(remote2, "192.168.0.3/24", "10.1.0.0")),
+			V("b", node(remote2, "172.16.0.3/24", "10.1.0.0")),
 		}},
 		Key{ID: "hcR1", Kind: "hostconfig", Key: hc(remote1, "IPv4VXLANTunnelAddr"), Variants: []Variant{V("a", "10.0.1.0"), V("b", "10.0.1.7")}},
-		Key{ID: "hcR2", Kind: "hostconfig", Key: hc(remote2, "IPv4VXLANTunnelAddr"), Variants: []Variant{V("a", "10.0.2.0")}},
+		Key{ID: "hcR2", Kind: "hostconfig", Key: hc(remote2, "IPv4VXLANTunnelAddr"), Variants: []Variant{V("a", "10.1.0.0")}},
 		Key{ID: "hcL", Kind: "hostconfig", Key: hc(localHost, "IPv4VXLANTunnelAddr"), Variants: []Variant{V("a", "10.0.0.0")}},
 		Key{ID: "wepL1", Kind: "wep", Key: wepKey(localHost, "wl1"), Variants: []Variant{
 			V("a", wep("cali1", lbl("role", "web"), nil, []string{"10.0.0.1/32"})),
@@ -468,8 +471,42 @@ func universeRoutes() *Universe {
 	return u
 }
 
+// names where one is a prefix of the other: "then name" must order "allow-dns" before "allow-dns-egress" / "allow-dns.v2"
+func universeNames() *Universe {
+	u := &Universe{Name: "names", NFT: false}
+	pol := func(tier string, order *float64, types ...string) *model.Policy {
+		return &model.Policy{Tier: tier, Order: order, Selector: "all()", Types: types,
+			InboundRules: []model.Rule{{Action: "allow"}}, OutboundRules: []model.Rule{{Action: "allow"}}}
+	}
+	npol := func(ns string, order *float64) *model.Policy {
+		p := pol("default", order, "ingress", "egress")
+		p.Namespace = ns
+		return p
+	}
+	u.Keys = append(u.Keys,
+		Key{ID: "wepL1", Kind: "wep", Key: wepKey(localHost, "wl1"), Variants: []Variant{
+			V("a", wep("cali1", lbl("role", "web"), nil, []string{"10.0.0.1/32"})),
+		}},
+		Key{ID: "n1", Kind: "policy", Key: gnpKey("allow-dns"), Variants: []Variant{
+			V("a", pol("default", fp(10), "ingress", "egress")), V("b", pol("default", nil, "ingress")),
+		}},
+		Key{ID: "n2", Kind: "policy", Key: gnpKey("allow-dns-egress"), Variants: []Variant{
+			V("a", pol("default", fp(10), "ingress", "egress")), V("b", pol("default", nil, "ingress", "egress")),
+		}},
+		Key{ID: "n3", Kind: "policy", Key: npKey("ns1", "allow-dns.v2"), Variants: []Variant{
+			V("a", npol("ns1", fp(10))), V("b", npol("ns1", nil)),
+		}},
+		Key{ID: "n4", Kind: "policy", Key: npKey("ns1", "allow"), Variants: []Variant{
+			V("a", npol("ns1", fp(10))), V("b", npol("ns1", fp(5))),
+		}},
+		tierKey("default", V("a", &model.Tier{Order: fp(100), DefaultAction: v3.Deny})),
+		tierKey("default.x", V("a", &model.Tier{Order: fp(100), DefaultAction: v3.Deny})),
+	)
+	return u
+}
+
 func allUniverses() []*Universe {
-	return []*Universe{universePolicy(), universeOrder(), universeIPSets(false), universeIPSets(true), universeRoutes()}
+	return []*Universe{universePolicy(), universeOrder(), universeIPSets(false), universeIPSets(true), universeRoutes(), universeNames()}
 }
 
 // ---- projection for TLC (pure syntax) ---------------------------------------------------------
